@@ -564,7 +564,16 @@ def run(tier, seed):
         ncfg = 1500 if quick else 40000
         reqs = config_sweep_requests(seed, ncfg)
         log(f"[C12] configuration sweep: {ncfg} (header, option set) samples")
-        res = run_requests(reqs, timeout=300, progress=5000)
+        # in chunks, with a circuit breaker: a defect that makes every sample of one header hang
+        # must not turn the check into hours of waiting for time-outs
+        res = []
+        for lo in range(0, len(reqs), 200):
+            part = run_requests(reqs[lo:lo + 200], timeout=60)
+            res.extend(part)
+            if sum(1 for r in part if r.get("kind") == "timeout") >= 3:
+                log(f"[C12] configuration sweep stopped after {len(res)} samples: repeated time-outs")
+                reqs = reqs[:len(res)]
+                break
         rejected = 0
         for rq, r in zip(reqs, res):
             scen_total += 1
